@@ -457,7 +457,14 @@ class SimSolver:
             return x
         if kind == "stall":
             w.clock.advance(float(f.get("seconds", 1e6)))
-        x = self.real(A, b, *args, **kwargs)
+        try:
+            x = self.real(A, b, *args, **kwargs)
+        except Exception as e:
+            # the real SciPy / SuperLU refused the system (e.g. "failed to factorize matrix" on NaN/inf input, or a
+            # rank warning turned into an error): an outcome of the environment, not of the code under test
+            w.natural_solver_raises += 1
+            w.log.add(w.clock.now, "solver", "solve", shape, "natural-raise:" + type(e).__name__)
+            raise
         if kind == "wild":
             x = np.array(x, dtype=np.float64)
             mode = f.get("mode", "scale")
@@ -537,6 +544,7 @@ class World:
         self.capture = _Capture(self)
         self.warnings = []
         self.natural_nonfinite_solves = 0
+        self.natural_solver_raises = 0
         self._saved = {}
         self._installed = False
 
